@@ -46,13 +46,26 @@ pub fn with_variants(rng: &mut Rng, n: usize, maxlen: usize) -> Vec<(Vec<u8>, bo
 pub fn oligo(seed: u64, n: usize, maxlen: usize, dir: &str) {
     let mut rng = Rng::new(seed);
     for k in 1..=8usize {
-        let recs = with_variants(&mut rng, n, maxlen);
+        let mut recs = with_variants(&mut rng, n, maxlen);
+        // exact repeats of earlier records (adjacent and far apart) and several records too short for any k-mer:
+        // anything that caches or shares per-sequence work between workers must still give every record its own row
+        let base = recs.len();
+        for j in 0..base.min(12) {
+            let src = recs[rng.below(base as u64) as usize].0.clone();
+            recs.push((src.clone(), false));
+            if j % 3 == 0 {
+                recs.push((src, true));
+            }
+            if j % 4 == 1 {
+                recs.push(((0..rng.below(k as u64) as usize).map(|_| b'A').collect(), false));
+            }
+        }
         let seqs: Vec<Vec<u8>> = recs.iter().map(|r| r.0.clone()).collect();
         let inp = format!("{}/tr_oligo_{}.fa", dir, k);
         write_fasta(&inp, &seqs);
         for norm in [false, true] {
             let out = format!("{}/tr_oligo_{}_{}.out", dir, k, norm);
-            let threads = 1 + rng.below(8) as usize;
+            let threads = 2 + rng.below(14) as usize;
             let delim = *rng.pick(&[" ", ",", "\t"]);
             run_oligo(&inp, &out, k, norm, WPath::Auto, threads, delim, false, None).unwrap();
             let lines = lines_of(&out);
